@@ -66,3 +66,4 @@ PROP = {
     "assumptions": STD_ASSUME + ["a request is 'meaningful' or not according to the catalogue written from the property text; "
                                  "ASan/UBSan red zones see adjacent overruns only"],
 }
+PROP["level_text"] += ' The catalogue has grown to about 1300 requests: guards after call histories, after shape modifiers (Resize, assignment of another size), on tables scaled by 2^-43..2^43 and at 1e-3/1e-6/1e-9 of the extrapolation tolerance.'
